@@ -113,6 +113,7 @@ package storage
 //@   ensures [c15-fail] err != nil ==> *txn == old(*txn) -- every error return precedes the Set, or is the Set's own error
 //@   ensures [db] badger.txndb(*txn) == old(badger.txndb(*txn)) -- the transaction stays attached to its DB (needed by NewTransaction/Commit style callers: C15)
 //@   ensures [c16-accepts] err != nil && TxValWf(old(badger.kvget(*txn, TK(hash)))) ==> badger.iofail(err)
+//@   ensures [claim-needs-final] err == nil ==> old(HasTx(*txn, hash)) && old(Finalized(*txn, hash)) && badger.kvget(*txn, WithdrawalKeyId(kvval(hash))) == kvval(claim) -- a claim is recorded only against a stored, finalized submission
 
 //@ func writeUTXO
 //@   trustpre PayloadHash   -- its precondition (payload well-formedness) belongs to C06; irrelevant to the ghost-key binding proved here
